@@ -38,7 +38,7 @@ POSSIBILITY OF SUCH DAMAGE.
 NTR:
 '''
 
-from ..basis import Params, SearchFacade, SearchResults
+from ..basis import Params, Range, SearchFacade, SearchResults
 from .enums import Table
 from .state import DBI
 from .util import dissect, prime_keys
@@ -49,10 +49,15 @@ class SearchImplementation(SearchFacade):
         '''return all of the prime keys that match the constraints'''
         # alignment of keys       runid  tgt    task   alg     sv     val
         constraints: list[set] = [set(), set(), set(), set(), set(), set()]
+        ranges: list[Range] = []
         results = set()
         for k, v in filter(lambda t: bool(t[1]), parameters._asdict().items()):
             if k == 'runids':
-                constraints[_align(k)].update(v)
+                # a range is a predicate on the run id, not a member of a set
+                ranges.extend(r for r in v if isinstance(r, Range))
+                constraints[_align(k)].update(
+                    r for r in v if not isinstance(r, Range)
+                )
                 constraints[_align(k)].discard(-1)
             else:
                 table = DBI().tables[_table_index(k)]
@@ -60,8 +65,13 @@ class SearchImplementation(SearchFacade):
                     subtable = _subset(table, name)
                     subvalues = subtable.values() if subtable else [-1]
                     constraints[_align(k)].update(subvalues)
+        runids = constraints[_align('runids')]
         for pk in prime_keys(DBI().tables.prime):
-            if all(not c or e in c for c, e in zip(constraints, pk)):
+            if (
+                not (runids or ranges)
+                or pk[0] in runids
+                or any(pk[0] in r for r in ranges)
+            ) and all(not c or e in c for c, e in zip(constraints[1:], pk[1:])):
                 results.add(pk[:keylen])
         return sorted(results)
 
